@@ -339,3 +339,22 @@ theorem ax_filter_list_prod (f : ℕ → ℝ) (P : ℕ → Prop) [DecidablePred 
   congr 1
   ext x
   simp
+
+/-! ### G-mode: partition of an operand list by a predicate -/
+
+theorem ax_bigsum_partition (f : ℕ → ℝ) (P : ℕ → Prop) [DecidablePred P] (n : ℕ) :
+    ∑ i ∈ Finset.range n, f i
+      = ∑ i ∈ (Finset.range n).filter P, f i + ∑ i ∈ (Finset.range n).filter (fun i => ¬ P i), f i :=
+  (Finset.sum_filter_add_sum_filter_not (Finset.range n) P f).symm
+
+theorem ax_bigprod_partition (f : ℕ → ℝ) (P : ℕ → Prop) [DecidablePred P] (n : ℕ) :
+    ∏ i ∈ Finset.range n, f i
+      = (∏ i ∈ (Finset.range n).filter P, f i) * ∏ i ∈ (Finset.range n).filter (fun i => ¬ P i), f i :=
+  (Finset.prod_filter_mul_prod_filter_not (Finset.range n) P f).symm
+
+/-- lengths of the two parts add up -/
+theorem ax_partition_lengths (P : ℕ → Prop) [DecidablePred P] (n : ℕ) :
+    ((List.range n).filter (fun i => decide (P i))).length + ((List.range n).filter (fun i => !decide (P i))).length = n := by
+  have h := List.length_eq_length_filter_add (l := List.range n) (fun i => decide (P i))
+  simp only [List.length_range] at h
+  exact h.symm
